@@ -461,30 +461,23 @@ Qed.
 Record pwf (p : pstate) (gs : list group) : Prop := mkPwf {
   pw_log : p_log p = concat gs;
   pw_gwf : gwf 1 gs;
-  pw_next : p_next p = nlen gs + 1;
-  pw_live : p_live p = true;
-  pw_obs : p_obs_next p = p_next p
+  pw_next : p_next p = nlen gs + 1
 }.
 
-Lemma cur_live : forall p gs, pwf p gs -> cur p = nlen gs.
-Proof. intros p gs W. unfold cur. rewrite (pw_obs _ _ W), (pw_next _ _ W). lia. Qed.
-
-Lemma last_seq_log : forall gs, gwf 1 gs -> last_seq (concat gs) = nlen gs.
-Proof.
-  intros [|g gs] W; [reflexivity|]. rewrite (last_seq_groups _ 1 W) by discriminate. lia.
-Qed.
+Lemma cur_pwf : forall p gs, pwf p gs -> cur p = nlen gs.
+Proof. intros p gs W. unfold cur. rewrite (pw_next _ _ W). lia. Qed.
 
 Lemma fetch_groups : forall p gs from, pwf p gs -> 1 <= from ->
-  (nlen gs < from /\ fetch p from = FOk []) \/
+  (nlen gs < from /\ fetch p from = []) \/
   (from <= nlen gs /\ exists n, (1 <= n)%nat /\ (N.to_nat from - 1 + n <= length gs)%nat /\
-     fetch p from = FOk (concat (seg (N.to_nat from - 1) n gs))).
+     fetch p from = concat (seg (N.to_nat from - 1) n gs)).
 Proof.
-  intros p gs from W Hf. unfold fetch. rewrite (cur_live _ _ W).
+  intros p gs from W Hf. unfold fetch. rewrite (cur_pwf _ _ W).
   destruct (N.ltb_spec (nlen gs) from) as [L|L].
   - left. split; [exact L|]. rewrite orb_true_r. reflexivity.
   - right. split; [exact L|].
     replace (nlen gs =? 0) with false by (symmetry; apply N.eqb_neq; lia). cbn [orb].
-    rewrite (pw_live _ _ W), (pw_log _ _ W).
+    rewrite (pw_log _ _ W).
     rewrite (from_seq_groups gs 1) by (apply (pw_gwf _ _ W) || lia).
     set (i := N.to_nat (from - 1)).
     assert (Hi : (i < length gs)%nat) by (unfold nlen in L; lia).
@@ -496,16 +489,19 @@ Proof.
       split; [lia|]. split; [lia|]. unfold cut_fetch. rewrite En. reflexivity.
 Qed.
 
-(* ---------- the invariant of a replica against a live primary ---------- *)
-Definition is_push (m : msg) : Prop := m = MPush.
+(* ---------- the invariant of a replica against the primary ---------- *)
 Definition ei (r : rstate) : nat := (N.to_nat (r_exp r) - 1)%nat.   (* groups applied *)
 
+(* a pushed write: one whole group of the log *)
+Definition is_push (gs : list group) (m : msg) : Prop :=
+  exists i, (i < length gs)%nat /\ m = MPush (concat (seg i 1 gs)).
+
 Inductive inbox_ok (gs : list group) (r : rstate) : list msg -> Prop :=
-| IB_push : forall ib, Forall is_push ib -> (ib <> [] -> r_start r < nlen gs) -> inbox_ok gs r ib
+| IB_push : forall ib, Forall (is_push gs) ib -> inbox_ok gs r ib
 | IB_init : forall es n rest, es = concat (seg (ei r) n gs) ->
     (1 <= n)%nat -> (ei r + n <= length gs)%nat -> r_start r = r_exp r ->
-    Forall is_push rest -> (rest <> [] -> r_start r < nlen gs) ->
-    inbox_ok gs r (MPlain es :: rest).
+    Forall (is_push gs) rest ->
+    inbox_ok gs r (MInit es :: rest).
 
 Record rcore (gs : list group) (r : rstate) : Prop := mkRcore {
   ri_exp : 1 <= r_exp r <= nlen gs + 1;
@@ -642,22 +638,18 @@ Definition mu (p : pstate) (gs : list group) (r : rstate) : nat :=
   match r_mode r with
   | RDown => O
   | RConnecting => 2 * dist gs r + 2
-  | RStreaming => match r_inbox r with MPlain _ :: _ => 2 * dist gs r + 1 | _ => 2 * dist gs r + 3 end
+  | RStreaming => match r_inbox r with MInit _ :: _ => 2 * dist gs r + 1 | _ => 2 * dist gs r + 3 end
   end.
 
-Definition stuck_last (gs : list group) (r : rstate) : Prop :=
-  r_mode r = RStreaming /\ r_inbox r = [] /\ r_start r = nlen gs /\ r_exp r = nlen gs.
-
 Definition step_ok (p : pstate) (gs : list group) (c : choice) (r r' : rstate) : Prop :=
-  rinv gs r' /\ ~ stuck_last gs r' /\ (mu p gs r' <= mu p gs r)%nat /\
+  rinv gs r' /\ (mu p gs r' <= mu p gs r)%nat /\
   (is_bad c = false -> (0 < mu p gs r)%nat -> (mu p gs r' < mu p gs r)%nat) /\
   r_link r' = r_link r /\ (r_mode r <> RDown -> r_mode r' <> RDown).
 
-Lemma step_ok_same : forall p gs c r, rinv gs r -> ~ stuck_last gs r -> tick c p r = r ->
-  idle p r = true -> step_ok p gs c r r.
+Lemma step_ok_same : forall p gs c r, rinv gs r -> idle p r = true -> step_ok p gs c r r.
 Proof.
-  intros p gs c r I NS _ Hid. unfold step_ok, mu. rewrite Hid.
-  split; [exact I|]. split; [exact NS|]. split; [lia|]. split; [intros _ H; lia|].
+  intros p gs c r I Hid. unfold step_ok, mu. rewrite Hid.
+  split; [exact I|]. split; [lia|]. split; [intros _ H; lia|].
   split; [reflexivity|]. intros H; exact H.
 Qed.
 
@@ -683,26 +675,76 @@ Proof.
   assert (LK : r_link r = true).
   { destruct I as [_ IM]. unfold rmode_ok in IM. rewrite M in IM. tauto. }
   unfold step_ok. split; [apply rinv_disconnect; exact C2|].
-  split; [intros (Hm & _); discriminate|].
   rewrite mu_connecting by (rewrite L2; exact LK).
   assert (Dd : dist gs (disconnect r2) = dist gs r2) by reflexivity.
   split; [lia|]. split; [intros; lia|]. split; [exact L2|]. intros _. discriminate.
 Qed.
 
-Lemma tick_step : forall p gs r c, pwf p gs -> rinv gs r -> ~ stuck_last gs r ->
-  step_ok p gs c r (tick c p r).
+(* delivering the segment [i, i+n) of the log to a streaming replica whose inbox is ib *)
+Lemma deliver_segment : forall p gs c r rest i n,
+  pwf p gs -> rinv gs r -> r_mode r = RStreaming -> idle p r = false ->
+  Forall (is_push gs) rest -> (1 <= n)%nat -> (i + n <= length gs)%nat ->
+  (mu p gs r = 2 * dist gs r + 3 \/ (mu p gs r = 2 * dist gs r + 1 /\ i = ei r))%nat ->
+  step_ok p gs c r (deliver c (set_inbox r rest) (concat (seg i n gs))).
 Proof.
-  intros p gs r c W I NS. pose proof (pw_gwf _ _ W) as GW.
-  pose proof (cur_live _ _ W) as CUR.
+  intros p gs c r rest i n W I M Hid FP Hn Hl Hmu. pose proof (pw_gwf _ _ W) as GW.
+  destruct I as [C IM]. pose proof (conj C IM : rinv gs r) as I.
+  assert (Hei : (ei r <= length gs)%nat) by (pose proof (ri_exp _ _ C); unfold ei, nlen in *; lia).
+  unfold rmode_ok in IM. rewrite M in IM. destruct IM as (HS & LK & _).
+  set (r1 := set_inbox r rest).
+  assert (C1 : rcore gs r1) by (eapply rcore_ext; [..|exact C]; reflexivity).
+  assert (E1 : ei r1 = ei r) by reflexivity.
+  unfold deliver.
+  destruct (Nat.le_gt_cases i (ei r)) as [Li|Gi].
+  - rewrite (apply_segment gs r1 i n GW C1 Hn Hl ltac:(lia)).
+    set (k := Nat.min n (ei r1 - i)).
+    assert (Eseg : seg (i + k) (n - k) gs = seg (ei r1) (n - k) gs).
+    { destruct (Nat.eq_dec (n - k) 0) as [Z|NZ]; [rewrite Z; reflexivity|].
+      f_equal. unfold k in *. lia. }
+    rewrite Eseg.
+    assert (Lm : (ei r1 + (n - k) <= length gs)%nat) by (unfold k; lia).
+    destruct (core_applied gs r1 (n - k) GW C1 Lm) as [C2 E2].
+    set (r2 := applied_state r1 (seg (ei r1) (n - k) gs)) in *.
+    assert (D2 : (dist gs r2 <= dist gs r)%nat) by (unfold dist; lia).
+    assert (D3 : (i = ei r -> dist gs r2 < dist gs r)%nat).
+    { intros ->. unfold dist, k in *. lia. }
+    destruct (c_stay c) eqn:CSY.
+    + unfold step_ok. split.
+      { split; [exact C2|]. unfold rmode_ok, r2, applied_state, r1, set_inbox.
+        cbn [r_mode r_start r_exp r_link r_inbox]. rewrite M.
+        split; [lia|]. split; [exact LK|]. apply IB_push. exact FP. }
+      assert (MU2 : (mu p gs r2 <= 2 * dist gs r2 + 3)%nat).
+      { unfold mu. destruct (idle p r2); [lia|]. unfold r2, applied_state, r1, set_inbox.
+        cbn [r_mode r_inbox]. rewrite M. destruct rest as [|m1 rest']; [lia|].
+        destruct (Forall_inv FP) as (j & _ & ->). lia. }
+      split; [destruct Hmu as [H|[H Hi]]; [lia|specialize (D3 Hi); lia]|].
+      split; [unfold is_bad; rewrite CSY, orb_true_r; discriminate|].
+      split; [reflexivity|]. intros _. unfold r2, applied_state. cbn [r_mode]. unfold r1, set_inbox. cbn [r_mode].
+      rewrite M. discriminate.
+    + eapply (step_ok_disconnect p gs c r r2); try eassumption; try reflexivity.
+      destruct Hmu as [H|[H Hi]]; [left; exact H|right; split; [exact H|apply D3, Hi]].
+  - (* gap: NACK, reconnect *)
+    rewrite (apply_entries_gap r1 (seg i n gs) (1 + N.of_nat i)).
+    + eapply (step_ok_disconnect p gs c r r1); try eassumption; try reflexivity.
+      destruct Hmu as [H|[H Hi]]; [left; exact H|exfalso; lia].
+    + apply gwf_seg; [exact GW|lia].
+    + apply seg_ne; assumption.
+    + unfold ei in *. change (r_exp r1) with (r_exp r). lia.
+Qed.
+
+Lemma tick_step : forall p gs r c, pwf p gs -> rinv gs r -> step_ok p gs c r (tick c p r).
+Proof.
+  intros p gs r c W I. pose proof (pw_gwf _ _ W) as GW.
+  pose proof (cur_pwf _ _ W) as CUR.
   destruct I as [C IM]. pose proof (conj C IM : rinv gs r) as I.
   assert (Hei : (ei r <= length gs)%nat) by (pose proof (ri_exp _ _ C); unfold ei, nlen in *; lia).
   unfold rmode_ok in IM. unfold tick.
   destruct (r_mode r) eqn:M.
   - (* down *)
-    apply step_ok_same; try assumption; unfold tick, idle; rewrite M; reflexivity.
+    apply step_ok_same; [exact I|]. unfold idle. rewrite M. reflexivity.
   - (* connecting *)
     destruct (r_link r) eqn:LK.
-    2:{ apply step_ok_same; try assumption; unfold tick, idle; rewrite M, LK; reflexivity. }
+    2:{ apply step_ok_same; [exact I|]. unfold idle. rewrite M, LK. reflexivity. }
     assert (MU : mu p gs r = (2 * dist gs r + 2)%nat).
     { unfold mu, idle. rewrite M, LK. reflexivity. }
     destruct C as [[E1 E2] CS CA]. pose proof (mkRcore gs r (conj E1 E2) CS CA) as C.
@@ -712,149 +754,74 @@ Proof.
       set (r' := mkR RStreaming (r_link r) (r_exp r) [] (r_exp r) (r_gseq r) (r_gapp r) (r_store r)).
       assert (Hid : idle p r' = true).
       { unfold idle, poll, r'. cbn [r_mode r_inbox r_start]. rewrite CUR.
-        replace (r_exp r <? nlen gs) with false by (symmetry; apply N.ltb_ge; lia). reflexivity. }
+        replace (r_exp r <=? nlen gs) with false by (symmetry; apply N.leb_gt; lia). reflexivity. }
       unfold step_ok. split.
       { split; [eapply rcore_ext; [..|exact C]; reflexivity|].
         unfold rmode_ok, r'. cbn [r_mode r_start r_exp r_link r_inbox]. split; [lia|]. split; [exact LK|].
-        apply IB_push; [constructor|congruence]. }
-      split; [intros (_ & _ & S1 & S2); unfold r' in *; cbn [r_start r_exp] in *; lia|].
+        apply IB_push. constructor. }
       assert (MU' : mu p gs r' = 0%nat) by (unfold mu; rewrite Hid; reflexivity).
       rewrite MU, MU'.
       split; [lia|]. split; [intros; lia|]. split; [reflexivity|]. intros _. discriminate.
     + (* the initial entries *)
       assert (En : (N.to_nat (r_exp r) - 1)%nat = ei r) by reflexivity. rewrite En in *.
       destruct (concat_seg_cons gs (ei r) n GW Hn Hl) as (e0 & tl & Ees). rewrite Ees.
-      set (r' := mkR RStreaming (r_link r) (r_exp r) [MPlain (e0 :: tl)] (r_exp r) (r_gseq r) (r_gapp r) (r_store r)).
+      set (r' := mkR RStreaming (r_link r) (r_exp r) [MInit (e0 :: tl)] (r_exp r) (r_gseq r) (r_gapp r) (r_store r)).
       unfold step_ok. split.
       { split; [eapply rcore_ext; [..|exact C]; reflexivity|].
         unfold rmode_ok, r'. cbn [r_mode r_start r_exp r_link r_inbox]. split; [lia|]. split; [exact LK|].
-        apply (IB_init gs _ _ n); try assumption; try reflexivity; [rewrite <- Ees; reflexivity|constructor|congruence]. }
-      split; [intros (_ & S0 & _); discriminate|].
+        apply (IB_init gs _ _ n); try assumption; try reflexivity; [rewrite <- Ees; reflexivity|constructor]. }
       assert (MU' : mu p gs r' = (2 * dist gs r + 1)%nat) by reflexivity.
       rewrite MU, MU'. split; [lia|]. split; [intros; lia|]. split; [reflexivity|]. intros _. discriminate.
   - (* streaming *)
     destruct IM as (HS & LK & IB).
-    inversion IB as [ib FP HP Eib|es n rest Ees Hn Hl ES FP HP Eib].
+    inversion IB as [ib FP Eib|es n rest Ees Hn Hl ES FP Eib].
     + destruct (r_inbox r) as [|m0 rest] eqn:EI.
-      * (* empty inbox: the poll *)
+      * (* empty inbox: the poll, from the session's start *)
         unfold poll. rewrite CUR.
-        destruct (N.ltb_spec (r_start r) (nlen gs)) as [LT|GE].
-        2:{ apply step_ok_same; try assumption.
-            - unfold tick. rewrite M, EI. unfold poll. rewrite CUR.
-              replace (r_start r <? nlen gs) with false by (symmetry; apply N.ltb_ge; lia). reflexivity.
-            - unfold idle, poll. rewrite M, EI, CUR.
-              replace (r_start r <? nlen gs) with false by (symmetry; apply N.ltb_ge; lia). reflexivity. }
-        destruct (fetch_groups p gs (r_start r + 1) W ltac:(lia)) as [[L F]|(L & n & Hn & Hl & F)]; [lia|].
+        destruct (N.leb_spec (r_start r) (nlen gs)) as [LE|GT].
+        2:{ apply step_ok_same; [exact I|]. unfold idle, poll. rewrite M, EI, CUR.
+            replace (r_start r <=? nlen gs) with false by (symmetry; apply N.leb_gt; lia). reflexivity. }
+        destruct (fetch_groups p gs (r_start r) W ltac:(lia)) as [[L F]|(L & n & Hn & Hl & F)]; [lia|].
         rewrite F.
-        replace (N.to_nat (r_start r + 1) - 1)%nat with (N.to_nat (r_start r)) in * by lia.
-        set (i := N.to_nat (r_start r)) in *.
+        set (i := (N.to_nat (r_start r) - 1)%nat) in *.
         destruct (concat_seg_cons gs i n GW Hn Hl) as (e0 & tl & Ees). rewrite Ees.
         assert (Hid : idle p r = false).
-        { unfold idle, poll. rewrite M, EI, CUR. apply N.ltb_lt in LT. rewrite LT, F, Ees. reflexivity. }
+        { unfold idle, poll. rewrite M, EI, CUR. apply N.leb_le in LE. rewrite LE, F, Ees. reflexivity. }
         assert (MU : mu p gs r = (2 * dist gs r + 3)%nat).
         { unfold mu. rewrite Hid, M, EI. reflexivity. }
         destruct (c_lose c) eqn:CL.
-        { (* swallowed *)
-          unfold step_ok. split; [exact I|]. split; [exact NS|]. split; [lia|].
+        { unfold step_ok. split; [exact I|]. split; [lia|].
           split; [unfold is_bad; rewrite CL; discriminate|]. split; [reflexivity|]. intros _. rewrite M. discriminate. }
-        unfold deliver. rewrite <- Ees.
-        destruct (Nat.le_gt_cases i (ei r)) as [Li|Gi].
-        -- (* no gap *)
-           rewrite (apply_segment gs r i n GW C Hn Hl Li).
-           set (k := Nat.min n (ei r - i)).
-           assert (Eseg : seg (i + k) (n - k) gs = seg (ei r) (n - k) gs).
-           { destruct (Nat.eq_dec (n - k) 0) as [Z|NZ]; [rewrite Z; reflexivity|].
-             f_equal. unfold k in *. lia. }
-           rewrite Eseg.
-           assert (Lm : (ei r + (n - k) <= length gs)%nat) by (unfold k; lia).
-           destruct (core_applied gs r (n - k) GW C Lm) as [C2 E2].
-           set (r2 := applied_state r (seg (ei r) (n - k) gs)) in *.
-           assert (D2 : (dist gs r2 <= dist gs r)%nat) by (unfold dist; lia).
-           destruct (c_stay c) eqn:CSY.
-           ++ (* the session goes on *)
-              assert (Hid2 : idle p r2 = false).
-              { unfold idle, poll, r2, applied_state. cbn [r_mode r_inbox r_start]. rewrite M, EI, CUR.
-                apply N.ltb_lt in LT. rewrite LT, F, Ees. reflexivity. }
-              unfold step_ok. split.
-              { split; [exact C2|]. unfold rmode_ok, r2, applied_state. cbn [r_mode r_start r_exp r_link r_inbox].
-                rewrite M, EI. split; [lia|]. split; [exact LK|]. apply IB_push; [constructor|congruence]. }
-              split; [intros (_ & _ & S1 & _); unfold r2, applied_state in S1; cbn [r_start] in S1; lia|].
-              assert (MU2 : mu p gs r2 = (2 * dist gs r2 + 3)%nat).
-              { unfold mu. rewrite Hid2. unfold r2, applied_state. cbn [r_mode r_inbox]. rewrite M, EI. reflexivity. }
-              rewrite MU, MU2. split; [lia|].
-              split; [unfold is_bad; rewrite CSY, orb_true_r; discriminate|].
-              split; [reflexivity|]. intros _. unfold r2, applied_state. cbn [r_mode]. rewrite M. discriminate.
-           ++ eapply step_ok_disconnect; try eassumption; try reflexivity. left. exact MU.
-        -- (* gap: NACK, reconnect *)
-           rewrite (apply_entries_gap r (seg i n gs) (1 + N.of_nat i)).
-           ++ eapply (step_ok_disconnect p gs c r r); try eassumption; try reflexivity. left; exact MU.
-           ++ apply gwf_seg; [exact GW|lia].
-           ++ apply seg_ne; assumption.
-           ++ unfold ei in Gi. lia.
-      * (* a pushed batch at the head *)
-        assert (m0 = MPush) by exact (Forall_inv FP). subst m0.
+        rewrite <- Ees.
+        replace r with (set_inbox r []) at 2 by (destruct r; cbn in EI; subst; reflexivity).
+        apply (deliver_segment p gs c r [] i n W I M Hid); try assumption. left; exact MU.
+      * (* a pushed write at the head *)
+        destruct (Forall_inv FP) as (i & Hi & ->).
         pose proof (Forall_inv_tail FP) as FR.
-        assert (LT : r_start r < nlen gs) by (apply HP; discriminate).
         assert (Hid : idle p r = false) by (unfold idle; rewrite M, EI; reflexivity).
         assert (MU : mu p gs r = (2 * dist gs r + 3)%nat).
         { unfold mu. rewrite Hid, M, EI. reflexivity. }
         destruct (c_lose c) eqn:CL.
         -- set (r2 := set_inbox r rest).
-           assert (Hid2 : idle p r2 = false).
-           { unfold idle, r2, set_inbox. cbn [r_mode r_inbox]. rewrite M.
-             destruct rest; [|reflexivity]. unfold poll. cbn [r_start]. rewrite CUR.
-             apply N.ltb_lt in LT. rewrite LT.
-             destruct (fetch_groups p gs (r_start r + 1) W ltac:(lia)) as [[L F]|(L & n & Hn & Hl & F)]; [lia|].
-             rewrite F. destruct (concat_seg_cons gs _ n GW Hn Hl) as (e0 & tl & Ees). rewrite Ees. reflexivity. }
            unfold step_ok. split.
            { split; [eapply rcore_ext; [..|exact C]; reflexivity|].
              unfold rmode_ok, r2, set_inbox. cbn [r_mode r_start r_exp r_link r_inbox]. rewrite M.
-             split; [exact HS|]. split; [exact LK|]. apply IB_push; [exact FR|intros _; exact LT]. }
-           split; [intros (_ & _ & S1 & _); unfold r2, set_inbox in S1; cbn [r_start] in S1; lia|].
-           assert (MU2 : mu p gs r2 = (2 * dist gs r + 3)%nat).
-           { unfold mu. rewrite Hid2. unfold r2, set_inbox. cbn [r_mode r_inbox]. rewrite M.
-             destruct rest as [|m1 rest']; [reflexivity|].
-             assert (m1 = MPush) by exact (Forall_inv FR). subst m1. reflexivity. }
-           rewrite MU, MU2. split; [lia|].
+             split; [exact HS|]. split; [exact LK|]. apply IB_push. exact FR. }
+           assert (MU2 : (mu p gs r2 <= 2 * dist gs r + 3)%nat).
+           { unfold mu. destruct (idle p r2); [lia|]. unfold r2, set_inbox. cbn [r_mode r_inbox]. rewrite M.
+             change (dist gs (mkR RStreaming (r_link r) (r_start r) rest (r_exp r) (r_gseq r) (r_gapp r) (r_store r))) with (dist gs r).
+             destruct rest as [|m1 rest']; [lia|]. destruct (Forall_inv FR) as (j & _ & ->). lia. }
+           rewrite MU. split; [lia|].
            split; [unfold is_bad; rewrite CL; discriminate|]. split; [reflexivity|].
            intros _. unfold r2, set_inbox. cbn [r_mode]. rewrite M. discriminate.
-        -- unfold deliver.
-           eapply (step_ok_disconnect p gs c r (set_inbox r rest)); try eassumption; try reflexivity.
-           ++ eapply rcore_ext; [..|exact C]; reflexivity.
-           ++ left. exact MU.
+        -- apply (deliver_segment p gs c r rest i 1 W I M Hid); try assumption; [lia|lia|left; exact MU].
     + (* the initial entries at the head *)
       subst es.
       assert (Hid : idle p r = false) by (unfold idle; rewrite M, <- Eib; reflexivity).
       assert (MU : mu p gs r = (2 * dist gs r + 1)%nat).
       { unfold mu. rewrite Hid, M, <- Eib. reflexivity. }
-      set (r1 := set_inbox r rest).
-      assert (C1 : rcore gs r1) by (eapply rcore_ext; [..|exact C]; reflexivity).
-      assert (E1 : ei r1 = ei r) by reflexivity.
-      unfold deliver. fold r1. rewrite <- E1.
-      rewrite (apply_segment gs r1 (ei r1) n GW C1 Hn ltac:(lia) ltac:(lia)).
-      rewrite Nat.sub_diag, Nat.min_0_r, Nat.add_0_r, Nat.sub_0_r.
-      destruct (core_applied gs r1 n GW C1 ltac:(lia)) as [C2 E2].
-      set (r2 := applied_state r1 (seg (ei r1) n gs)) in *.
-      assert (D2 : (dist gs r2 < dist gs r)%nat) by (unfold dist; lia).
-      destruct (c_stay c) eqn:CSY.
-      * unfold step_ok. split.
-        { split; [exact C2|]. unfold rmode_ok, r2, applied_state, r1, set_inbox.
-          cbn [r_mode r_start r_exp r_link r_inbox]. rewrite M.
-          split; [lia|]. split; [exact LK|]. apply IB_push; [exact FP|exact HP]. }
-        split.
-        { intros (_ & _ & S1 & S2).
-          assert (A1 : r_start r2 = r_start r) by reflexivity.
-          assert (A2 : ei r2 = (ei r + n)%nat) by (rewrite E2, E1; reflexivity).
-          rewrite A1 in S1. unfold ei in A2. lia. }
-        assert (MU2 : (mu p gs r2 <= 2 * dist gs r2 + 3)%nat).
-        { unfold mu. destruct (idle p r2); [lia|]. unfold r2, applied_state, r1, set_inbox.
-          cbn [r_mode r_inbox]. rewrite M. destruct rest as [|m1 rest']; [lia|].
-          assert (m1 = MPush) by exact (Forall_inv FP). subst m1. lia. }
-        rewrite MU. split; [lia|].
-        split; [unfold is_bad; rewrite CSY, orb_true_r; discriminate|].
-        split; [reflexivity|]. intros _. unfold r2, applied_state. cbn [r_mode]. unfold r1, set_inbox. cbn [r_mode]. rewrite M. discriminate.
-      * eapply (step_ok_disconnect p gs c r r2); try eassumption; try reflexivity; [lia|].
-        right. split; [exact MU|exact D2].
+      apply (deliver_segment p gs c r rest (ei r) n W I M Hid); try assumption.
+      right. split; [exact MU|reflexivity].
 Qed.
 
 (* ---------- many ticks ---------- *)
@@ -886,17 +853,17 @@ Proof.
   unfold idle in E. destruct (r_mode r); [discriminate|lia|]. destruct (r_inbox r) as [|[] ?]; lia.
 Qed.
 
-Lemma ticks_ok : forall p gs cs r, pwf p gs -> rinv gs r -> ~ stuck_last gs r ->
+Lemma ticks_ok : forall p gs cs r, pwf p gs -> rinv gs r ->
   let r' := ticks cs p r in
-  rinv gs r' /\ ~ stuck_last gs r' /\ (mu p gs r' <= mu p gs r - goods cs)%nat /\
+  rinv gs r' /\ (mu p gs r' <= mu p gs r - goods cs)%nat /\
   r_link r' = r_link r /\ (r_mode r <> RDown -> r_mode r' <> RDown).
 Proof.
-  intros p gs cs. induction cs as [|c cs IH]; intros r W I NS.
-  - unfold ticks, goods. cbn [fold_left filter length]. split; [exact I|]. split; [exact NS|]. split; [lia|].
+  intros p gs cs. induction cs as [|c cs IH]; intros r W I.
+  - unfold ticks, goods. cbn [fold_left filter length]. split; [exact I|]. split; [lia|].
     split; [reflexivity|]. intros H; exact H.
-  - destruct (tick_step p gs r c W I NS) as (I1 & NS1 & M1 & M2 & L1 & D1).
-    destruct (IH (tick c p r) W I1 NS1) as (I2 & NS2 & M3 & L2 & D2).
-    unfold ticks in *. cbn [fold_left]. split; [exact I2|]. split; [exact NS2|].
+  - destruct (tick_step p gs r c W I) as (I1 & M1 & M2 & L1 & D1).
+    destruct (IH (tick c p r) W I1) as (I2 & M3 & L2 & D2).
+    unfold ticks in *. cbn [fold_left]. split; [exact I2|].
     split.
     + unfold goods in *. cbn [filter]. destruct (is_bad c) eqn:B; cbn [negb length].
       * lia.
@@ -957,24 +924,22 @@ Proof.
   rewrite E, view_get_old by exact Hin. apply opt_beq_refl.
 Qed.
 
-(* an idle, connected, not stuck replica holds the whole log *)
-Lemma idle_converged : forall p gs r, pwf p gs -> rinv gs r -> ~ stuck_last gs r ->
+(* an idle, running, connected replica holds the whole log *)
+Lemma idle_converged : forall p gs r, pwf p gs -> rinv gs r ->
   r_mode r <> RDown -> r_link r = true -> idle p r = true ->
   r_exp r = nlen gs + 1 /\ views_agree p r = true.
 Proof.
-  intros p gs r W [C IM] NS ND LK Hid.
+  intros p gs r W [C IM] ND LK Hid.
   assert (E : r_exp r = nlen gs + 1).
   { unfold idle in Hid. unfold rmode_ok in IM. destruct (r_mode r) eqn:M; [congruence| |].
     - rewrite LK in Hid. discriminate.
     - destruct IM as (HS & _ & IB). destruct (r_inbox r) eqn:EI; [|discriminate].
-      unfold poll in Hid. rewrite (cur_live _ _ W) in Hid.
-      destruct (N.ltb_spec (r_start r) (nlen gs)) as [LT|GE].
-      + exfalso. destruct (fetch_groups p gs (r_start r + 1) W ltac:(lia)) as [[L F]|(L & n & Hn & Hl & F)]; [lia|].
+      unfold poll in Hid. rewrite (cur_pwf _ _ W) in Hid.
+      destruct (N.leb_spec (r_start r) (nlen gs)) as [LE|GT].
+      + exfalso. destruct (fetch_groups p gs (r_start r) W ltac:(lia)) as [[L F]|(L & n & Hn & Hl & F)]; [lia|].
         rewrite F in Hid. destruct (concat_seg_cons gs _ n (pw_gwf _ _ W) Hn Hl) as (e0 & tl & Ees).
         rewrite Ees in Hid. discriminate.
-      + pose proof (ri_exp _ _ C) as [_ E2].
-        destruct (N.eq_dec (r_exp r) (nlen gs + 1)) as [A|NA]; [exact A|].
-        exfalso. apply NS. unfold stuck_last. rewrite M, EI. repeat split; lia. }
+      + pose proof (ri_exp _ _ C) as [_ E2]. lia. }
   split; [exact E|].
   destruct (ri_store _ _ C) as (old & ES & EI).
   apply (views_agree_full p r old).
@@ -982,29 +947,26 @@ Proof.
   - rewrite (pw_log _ _ W). exact EI.
 Qed.
 
-(* ---------- C14, proved part: bounded convergence against a primary that did not rotate ---------- *)
+(* ---------- bounded convergence from any state that satisfies the invariant ---------- *)
 Theorem converges_from_invariant : forall p gs r cs F,
-  pwf p gs -> rinv gs r -> ~ stuck_last gs r ->
-  r_mode r <> RDown -> r_link r = true ->
+  pwf p gs -> rinv gs r -> r_mode r <> RDown -> r_link r = true ->
   (bads cs <= F)%nat -> (2 * (length gs - ei r) + 3 + F <= length cs)%nat ->
   let r' := ticks cs p r in
   views_agree p r' = true /\ forall cs', ticks cs' p r' = r'.
 Proof.
-  intros p gs r cs F W I NS ND LK HB HL r'.
-  destruct (ticks_ok p gs cs r W I NS) as (I' & NS' & M' & L' & D').
+  intros p gs r cs F W I ND LK HB HL r'.
+  destruct (ticks_ok p gs cs r W I) as (I' & M' & L' & D').
   assert (MB : (mu p gs r <= 2 * (length gs - ei r) + 3)%nat).
   { unfold mu, dist. destruct (idle p r); [lia|]. destruct (r_mode r); [lia|lia|].
     destruct (r_inbox r) as [|[] ?]; lia. }
   pose proof (goods_bads cs) as GB.
   assert (Z : mu p gs (ticks cs p r) = O) by lia.
-  apply mu_zero_idle in Z. fold r' in Z, I', NS', L', D'.
-  destruct (idle_converged p gs r' W I' NS' (D' ND) ltac:(congruence) Z) as [_ V].
+  apply mu_zero_idle in Z. fold r' in Z, I', L', D'.
+  destruct (idle_converged p gs r' W I' (D' ND) ltac:(congruence) Z) as [_ V].
   split; [exact V|]. intros cs'. apply idle_ticks. exact Z.
 Qed.
 
-(* ---------- the invariant holds along every run without a log rotation ---------- *)
-Definition noflush (e : event) : Prop := e <> EFlush.
-
+(* ---------- the invariant holds along every run ---------- *)
 Lemma pwf_init : pwf p_init [].
 Proof. constructor; reflexivity || exact I. Qed.
 
@@ -1031,14 +993,12 @@ Qed.
 Lemma pwf_write : forall p gs w, pwf p gs -> is_noop w = false ->
   pwf (p_write p w) (gs ++ [entries_of (p_next p) w]).
 Proof.
-  intros p gs w [A B C D E] H. destruct (entries_of_group (p_next p) w H) as [G1 G2].
-  unfold p_write. rewrite H, D. constructor; cbn [p_log p_next p_live p_obs_next].
+  intros p gs w [A B C] H. destruct (entries_of_group (p_next p) w H) as [G1 G2].
+  unfold p_write. rewrite H. constructor; cbn [p_log p_next].
   - rewrite A, concat_app. cbn [concat]. rewrite app_nil_r. reflexivity.
-  - apply gwf_app. split; [exact B|]. cbn [gwf]. rewrite <- C' || idtac.
+  - apply gwf_app. split; [exact B|]. cbn [gwf].
     replace (1 + nlen gs) with (p_next p) by (rewrite C; lia). repeat split; assumption.
   - rewrite C. unfold nlen. rewrite app_length. cbn [length]. lia.
-  - reflexivity.
-  - reflexivity.
 Qed.
 
 Lemma seg_app_l : forall i n (gs more : list group), (i + n <= length gs)%nat -> seg i n (gs ++ more) = seg i n gs.
@@ -1065,25 +1025,31 @@ Proof.
     split; [exact G1|]. split; [exact G2|]. rewrite app_nth1 by (unfold ei in *; lia). exact G3.
 Qed.
 
+Lemma is_push_grow : forall gs more m, is_push gs m -> is_push (gs ++ more) m.
+Proof.
+  intros gs more m (i & Hi & ->). exists i. split; [rewrite app_length; lia|].
+  rewrite seg_app_l by lia. reflexivity.
+Qed.
+
 Lemma inbox_ok_grow : forall gs more r ib, inbox_ok gs r ib -> inbox_ok (gs ++ more) r ib.
 Proof.
   intros gs more r ib H.
-  assert (Hn : forall x, x < nlen gs -> x < nlen (gs ++ more)).
-  { intros x. unfold nlen. rewrite app_length. lia. }
-  destruct H as [ib FP HP|es n rest Ees Hn' Hl ES FP HP].
-  - apply IB_push; [exact FP|]. intros H. apply Hn, HP, H.
+  assert (FG : forall l, Forall (is_push gs) l -> Forall (is_push (gs ++ more)) l).
+  { intros l Hl. eapply Forall_impl; [|exact Hl]. intros m. apply is_push_grow. }
+  destruct H as [ib FP|es n rest Ees Hn' Hl ES FP].
+  - apply IB_push. apply FG, FP.
   - apply (IB_init _ _ _ n); try assumption.
     + rewrite seg_app_l by exact Hl. exact Ees.
     + rewrite app_length. lia.
-    + intros H. apply Hn, HP, H.
+    + apply FG, FP.
 Qed.
 
-Lemma inbox_ok_push : forall gs r ib, inbox_ok gs r ib -> r_start r < nlen gs -> inbox_ok gs r (ib ++ [MPush]).
+Lemma inbox_ok_push : forall gs r ib m, inbox_ok gs r ib -> is_push gs m -> inbox_ok gs r (ib ++ [m]).
 Proof.
-  intros gs r ib H L. destruct H as [ib FP HP|es n rest Ees Hn' Hl ES FP HP].
-  - apply IB_push; [|intros _; exact L]. apply Forall_app. split; [exact FP|]. constructor; [reflexivity|constructor].
-  - cbn [app]. apply (IB_init _ _ _ n); try assumption; [|intros _; exact L].
-    apply Forall_app. split; [exact FP|]. constructor; [reflexivity|constructor].
+  intros gs r ib m H Hm. destruct H as [ib FP|es n rest Ees Hn' Hl ES FP].
+  - apply IB_push. apply Forall_app. split; [exact FP|]. constructor; [exact Hm|constructor].
+  - cbn [app]. apply (IB_init _ _ _ n); try assumption.
+    apply Forall_app. split; [exact FP|]. constructor; [exact Hm|constructor].
 Qed.
 
 (* inbox_ok reads only start and exp of the replica *)
@@ -1092,43 +1058,43 @@ Lemma inbox_ok_ext : forall gs r r' ib, r_start r' = r_start r -> r_exp r' = r_e
 Proof.
   intros gs r r' ib A B H.
   assert (E : ei r' = ei r) by (unfold ei; rewrite B; reflexivity).
-  destruct H as [ib FP HP|es n rest Ees Hn' Hl ES FP HP].
-  - apply IB_push; [exact FP|]. rewrite A. exact HP.
+  destruct H as [ib FP|es n rest Ees Hn' Hl ES FP].
+  - apply IB_push. exact FP.
   - apply (IB_init _ _ _ n); rewrite ?E, ?A, ?B; assumption.
 Qed.
 
-Lemma step_inv : forall p r gs e, pwf p gs -> rinv gs r -> noflush e ->
+Lemma step_inv : forall p r gs e, pwf p gs -> rinv gs r ->
   exists more, pwf (fst (step (p, r) e)) (gs ++ more) /\ rinv (gs ++ more) (snd (step (p, r) e)).
 Proof.
-  intros p r gs e W [C IM] NF. pose proof (conj C IM : rinv gs r) as I.
+  intros p r gs e W [C IM]. pose proof (conj C IM : rinv gs r) as I.
   destruct e as [w| |c| | | |]; cbn [step fst snd].
   - (* write *)
     destruct (is_noop w) eqn:NW.
     + exists []. rewrite app_nil_r. cbn [fst snd]. split; assumption.
     + exists [entries_of (p_next p) w]. cbn [fst snd]. split; [apply pwf_write; assumption|].
-      split.
-      * eapply rcore_ext; [..|apply rcore_grow; exact C]; unfold push_of;
-          destruct (r_mode r); try reflexivity; destruct (p_live p && (r_start r <? obs_seq (p_next p) w)); reflexivity.
-      * unfold rmode_ok, push_of in *. destruct (r_mode r) eqn:M; try (rewrite M; exact IM).
-        destruct IM as (HS & LK & IB).
-        destruct (p_live p && (r_start r <? obs_seq (p_next p) w)) eqn:PU.
-        -- unfold set_inbox. cbn [r_mode r_start r_exp r_link r_inbox]. rewrite M.
-           split; [exact HS|]. split; [exact LK|].
-           apply andb_true_iff in PU. destruct PU as [_ PU]. apply N.ltb_lt in PU.
-           eapply inbox_ok_ext; [| |apply inbox_ok_push; [apply inbox_ok_grow; exact IB|]]; try reflexivity.
-           unfold nlen. rewrite app_length. cbn [length].
-           destruct w as [op k v|ops]; cbn [obs_seq] in PU; [|lia].
-           rewrite (pw_next _ _ W) in PU. unfold nlen in PU. lia.
-        -- rewrite M. split; [exact HS|]. split; [exact LK|]. apply inbox_ok_grow. exact IB.
-  - exfalso. apply NF. reflexivity.
+      pose proof (rcore_grow gs [entries_of (p_next p) w] r C) as CG.
+      unfold push_of. unfold rmode_ok in IM. destruct (r_mode r) eqn:M.
+      * split; [exact CG|]. unfold rmode_ok. rewrite M. exact IM.
+      * split; [exact CG|]. unfold rmode_ok. rewrite M. exact IM.
+      * destruct IM as (HS & LK & IB).
+        destruct (r_start r <=? obs_seq (p_next p) w) eqn:PU.
+        -- destruct (Nat.leb MaxQueue (length (r_inbox r))).
+           ++ apply rinv_disconnect. exact CG.
+           ++ split; [eapply rcore_ext; [..|exact CG]; reflexivity|].
+              unfold rmode_ok, set_inbox. cbn [r_mode r_start r_exp r_link r_inbox]. rewrite M.
+              split; [exact HS|]. split; [exact LK|].
+              eapply inbox_ok_ext; [| |apply inbox_ok_push; [apply inbox_ok_grow; exact IB|]]; try reflexivity.
+              (* the pushed response is the new group *)
+              exists (length gs). split; [rewrite app_length; cbn [length]; lia|].
+              unfold seg. rewrite skipn_app, skipn_all, Nat.sub_diag. cbn [skipn app firstn concat].
+              rewrite app_nil_r. reflexivity.
+        -- split; [exact CG|]. unfold rmode_ok. rewrite M.
+           split; [exact HS|]. split; [exact LK|]. apply inbox_ok_grow. exact IB.
+  - (* flush: rotation is followed *)
+    exists []. rewrite app_nil_r. cbn [fst snd]. split; assumption.
   - (* tick *)
     exists []. rewrite app_nil_r. split; [exact W|].
-    destruct (idle p r) eqn:Hid.
-    + rewrite idle_fix by exact Hid. exact I.
-    + assert (NS : ~ stuck_last gs r).
-      { intros (M & EI & S1 & _). unfold idle in Hid. rewrite M, EI in Hid. unfold poll in Hid.
-        rewrite (cur_live _ _ W), S1, N.ltb_irrefl in Hid. discriminate. }
-      destruct (tick_step p gs r c W I NS) as (I1 & _). exact I1.
+    destruct (tick_step p gs r c W I) as (I1 & _). exact I1.
   - (* start *)
     exists []. rewrite app_nil_r. split; [exact W|]. destruct (r_mode r) eqn:M; try exact I.
     split; [|reflexivity]. destruct C as [[E1 E2] (old & ES & EI) IA]. constructor; cbn.
@@ -1152,50 +1118,58 @@ Proof.
     split; [exact HS|]. split; [reflexivity|]. eapply inbox_ok_ext; [..|exact IB]; reflexivity.
 Qed.
 
-Lemma run_inv : forall evs p r gs, Forall noflush evs -> pwf p gs -> rinv gs r ->
+Lemma run_inv : forall evs p r gs, pwf p gs -> rinv gs r ->
   exists gs', pwf (fst (run evs (p, r))) gs' /\ rinv gs' (snd (run evs (p, r))).
 Proof.
-  induction evs as [|e evs IH]; intros p r gs NF W I.
+  induction evs as [|e evs IH]; intros p r gs W I.
   - exists gs. split; assumption.
-  - pose proof (Forall_inv NF) as NF1. pose proof (Forall_inv_tail NF) as NF2.
-    destruct (step_inv p r gs e W I NF1) as (m1 & W1 & I1).
+  - destruct (step_inv p r gs e W I) as (m1 & W1 & I1).
     unfold run in *. cbn [fold_left] in *.
     destruct (step (p, r) e) as [p1 r1] eqn:ES. cbn [fst snd] in W1, I1.
     apply (IH p1 r1 (gs ++ m1)); assumption.
 Qed.
 
-(* the replica sits in a session that began exactly at the number of the last write (D18d) *)
-Definition last_write_unsent (p : pstate) (r : rstate) : Prop :=
-  r_mode r = RStreaming /\ r_inbox r = [] /\ r_start r = cur p /\ r_exp r = cur p.
+(* what "a connected replica" means: its replication manager runs and the link is up *)
+Definition connected (r : rstate) : Prop := r_mode r <> RDown /\ r_link r = true.
 
-(* C14, the part that holds: any history without a log rotation on the primary, ending in a
-   state where the replica is running, the link is up and the last write is not the one numbered
-   like the session start: within
-   2*(entries the replica lacks, in sequence numbers)+3 rounds plus the number of rounds in which
-   a delivery was swallowed or side-lined, the replica's data equals the primary's, and no
-   later round changes the replica. *)
-Theorem converges_partial : forall evs cs F,
-  Forall noflush evs ->
+(* C14: after ANY history of the primary (single writes, deletes, transactions, flushes and log
+   rotations) and of the replica (joining before, during or after the writes, stopped and started
+   again, link cut and healed), once the primary stops writing a connected replica agrees with the
+   primary within 2*(sequence numbers it lacks)+3 rounds plus the number of rounds in which a
+   delivery was swallowed or side-lined, and no later round changes it. *)
+Theorem converges : forall evs cs F,
   let p := fst (run evs sys_init) in
   let r := snd (run evs sys_init) in
-  r_mode r <> RDown -> r_link r = true -> ~ last_write_unsent p r ->
+  connected r ->
   (bads cs <= F)%nat ->
   (2 * N.to_nat (p_next p - r_exp r) + 3 + F <= length cs)%nat ->
   views_agree p (ticks cs p r) = true /\
   forall cs', ticks cs' p (ticks cs p r) = ticks cs p r.
 Proof.
-  intros evs cs F NF p r ND LK NS HB HL.
-  destruct (run_inv evs p_init r_init [] NF pwf_init rinv_init) as (gs & W & I).
+  intros evs cs F p r [ND LK] HB HL.
+  destruct (run_inv evs p_init r_init [] pwf_init rinv_init) as (gs & W & I).
   fold sys_init in W, I. fold p in W. fold r in I.
-  assert (NS' : ~ stuck_last gs r).
-  { intros (A & B & C & D). apply NS. unfold last_write_unsent. rewrite (cur_live _ _ W). tauto. }
   apply (converges_from_invariant p gs r cs F); try assumption.
   pose proof (ri_exp _ _ (proj1 I)) as [E1 E2]. rewrite (pw_next _ _ W) in HL.
   unfold ei, nlen in *. lia.
 Qed.
 
-(* non-vacuity: a history with single writes, a delete, a transaction, a replica that joins in
-   the middle and is restarted satisfies every hypothesis of converges_partial *)
+(* the same as an existence of a bound for every fairness budget *)
+Definition converges_statement : Prop :=
+  forall evs, let p := fst (run evs sys_init) in let r := snd (run evs sys_init) in
+  connected r ->
+  forall F, exists bound, forall cs, (bads cs <= F)%nat -> (bound <= length cs)%nat ->
+  views_agree p (ticks cs p r) = true /\ forall cs', ticks cs' p (ticks cs p r) = ticks cs p r.
+
+Theorem converges_statement_holds : converges_statement.
+Proof.
+  intros evs p r Hc F. exists (2 * N.to_nat (p_next p - r_exp r) + 3 + F)%nat.
+  intros cs HB HL. apply (converges evs cs F Hc HB HL).
+Qed.
+
+(* non-vacuity: a history with single writes, a delete, a transaction, a flush (log rotation)
+   while the replica is connected, a replica that joins in the middle and is restarted; the
+   replica lags behind at the end of it and agrees after the rounds of the bound *)
 Definition put1 (k v : N) : event := EWrite (WSingle OpPut [k] [v]).
 Definition del1 (k : N) : event := EWrite (WSingle OpDel [k] []).
 Definition tx2 (k1 v1 k2 v2 : N) : event := EWrite (WMulti [(OpPut, [k1], [v1]); (OpPut, [k2], [v2])]).
@@ -1203,136 +1177,33 @@ Definition tgood (n : nat) : list event := repeat (ETick good) n.
 
 Definition ex_history : list event :=
   [put1 97 1; put1 98 2; EStart; ETick good; tx2 99 3 100 4; del1 97] ++ tgood 3 ++
-  [EStop; put1 101 5; EStart; put1 102 6; put1 97 7].
+  [EFlush; put1 103 8; EStop; put1 101 5; EStart; put1 102 6; EFlush; put1 97 7].
 
-Example converges_partial_applies :
+Example converges_applies :
   let p := fst (run ex_history sys_init) in
   let r := snd (run ex_history sys_init) in
-  Forall noflush ex_history /\ r_mode r <> RDown /\ r_link r = true /\
-  ~ last_write_unsent p r /\ views_agree p r = false /\
-  views_agree p (ticks (repeat good 20) p r) = true.
+  connected r /\ views_agree p r = false /\
+  views_agree p (ticks (repeat good 21) p r) = true.
 Proof.
-  split; [repeat constructor; discriminate|].
-  split; [vm_compute; discriminate|]. split; [vm_compute; reflexivity|].
-  split; [intros (A & _); vm_compute in A; discriminate|].
+  split; [split; [vm_compute; discriminate|vm_compute; reflexivity]|].
   split; vm_compute; reflexivity.
 Qed.
 
-(* ---------- histories after which a connected replica never converges ---------- *)
-Lemma stuck_forever : forall p r, idle p r = true -> views_agree p r = false ->
-  forall cs, views_agree p (ticks cs p r) = false.
-Proof. intros p r Hid V cs. rewrite idle_ticks by exact Hid. exact V. Qed.
+(* the histories on which the pinned tree never converged (ReplProtoBefore.v) converge now *)
+Definition puts (n : nat) : list event := map (fun i => put1 (N.of_nat i) 1) (seq 1 n).
 
-(* what "a connected replica" means for the refutations: running, link up *)
-Definition connected (r : rstate) : Prop := r_mode r <> RDown /\ r_link r = true.
-
-(* D18a: the replica joins, two writes arrive, it has caught up; the primary flushes (its log is
-   rotated); two more writes.  The replica stays where it was under every schedule. *)
 Definition w_rotation : list event :=
   [EStart; ETick good; put1 97 1; put1 98 2] ++ tgood 6 ++ [EFlush; put1 99 3; put1 100 4].
-
-Theorem rotation_refuted :
-  let p := fst (run w_rotation sys_init) in
-  let r := snd (run w_rotation sys_init) in
-  connected r /\ ~ last_write_unsent p r /\
-  forall cs, views_agree p (ticks cs p r) = false.
-Proof.
-  split; [split; [vm_compute; discriminate|vm_compute; reflexivity]|].
-  split; [intros (_ & _ & A & _); vm_compute in A; discriminate|].
-  apply stuck_forever; vm_compute; reflexivity.
-Qed.
-
-Example rotation_caught_up_before_flush :
-  let s := run ([EStart; ETick good; put1 97 1; put1 98 2] ++ tgood 6) sys_init in
-  views_agree (fst s) (snd s) = true.
-Proof. vm_compute. reflexivity. Qed.
-
-(* D18a: a replica that joins after the rotation gets nothing: every fetch fails on the closed
-   log, the stream ends with an error, the replica reconnects, for ever *)
 Definition w_join_after_rotation : list event :=
   [put1 97 1; put1 98 2; EFlush; put1 99 3; EStart; ETick good; ETick good].
-
-Theorem join_after_rotation_refuted :
-  let p := fst (run w_join_after_rotation sys_init) in
-  let r := snd (run w_join_after_rotation sys_init) in
-  connected r /\ forall cs, views_agree p (ticks cs p r) = false.
-Proof.
-  cbv zeta. set (p := fst (run w_join_after_rotation sys_init)).
-  set (r := snd (run w_join_after_rotation sys_init)).
-  split; [split; [vm_compute; discriminate|vm_compute; reflexivity]|].
-  set (r2 := tick good p r).
-  assert (T1 : forall c, tick c p r = r2) by (intros [[|] [|]]; vm_compute; reflexivity).
-  assert (T2 : forall c, tick c p r2 = r) by (intros [[|] [|]]; vm_compute; reflexivity).
-  assert (V1 : views_agree p r = false) by (vm_compute; reflexivity).
-  assert (V2 : views_agree p r2 = false) by (vm_compute; reflexivity).
-  assert (H : forall cs, (views_agree p (ticks cs p r) = false) /\ (views_agree p (ticks cs p r2) = false)).
-  { induction cs as [|c cs [IH1 IH2]]; [split; assumption|].
-    unfold ticks in *. cbn [fold_left]. rewrite T1, T2. split; assumption. }
-  intros cs. apply H.
-Qed.
-
-(* D18d: the replica has joined an empty primary; one write.  Its number equals the session's
-   start sequence: not pushed (<= StartSequence), not polled (the poll starts one above) *)
 Definition w_last_write : list event := [EStart; ETick good; put1 107 118].
-
-Theorem last_write_refuted :
-  let p := fst (run w_last_write sys_init) in
-  let r := snd (run w_last_write sys_init) in
-  connected r /\ Forall noflush w_last_write /\
-  last_write_unsent p r /\ forall cs, views_agree p (ticks cs p r) = false.
-Proof.
-  split; [split; [vm_compute; discriminate|vm_compute; reflexivity]|].
-  split; [repeat constructor; discriminate|].
-  split; [vm_compute; repeat split; reflexivity|].
-  apply stuck_forever; vm_compute; reflexivity.
-Qed.
-
-(* ---------- BeforeFixes: regression notes on defects that were repaired ---------- *)
-(* D18e (repaired by f62340e): 99 single writes, then a transaction of two entries, then one more
-   write; the replica joins afterwards.  With the plain 100-entry cut (cut_fetch_old) the first
-   response ended inside the transaction: the replica applied its first entry, moved on to the
-   next number and never got the second one.  With the repaired cut the history converges. *)
-Definition puts (n : nat) : list event := map (fun i => put1 (N.of_nat i) 1) (seq 1 n).
 Definition w_tx_cut : list event :=
   puts 99 ++ [tx2 200 1 201 2; put1 250 9; EStart] ++ tgood 8.
 
-Example tx_cut_old_response_was_torn :
-  let p := fst (run w_tx_cut sys_init) in
-  map eseq (skipn 98 (cut_fetch_old (from_seq 1 (p_log p)))) = [99; 100] /\
-  map eseq (skipn 98 (cut_fetch (from_seq 1 (p_log p)))) = [99; 100; 100].
-Proof. split; vm_compute; reflexivity. Qed.
+Definition settled (evs : list event) : bool :=
+  let s := run (evs ++ tgood 8) sys_init in views_agree (fst s) (snd s).
 
-Example tx_cut_now_converges :
-  let p := fst (run w_tx_cut sys_init) in
-  let r := snd (run w_tx_cut sys_init) in
-  connected r /\ Forall noflush w_tx_cut /\ ~ last_write_unsent p r /\
-  view_get (r_store r) [200] = Some [1] /\ view_get (r_store r) [201] = Some [2] /\
-  views_agree p r = true.
-Proof.
-  split; [split; [vm_compute; discriminate|vm_compute; reflexivity]|].
-  split; [apply Forall_forall; intros e He; vm_compute in He;
-          repeat (destruct He as [<-|He]; [discriminate|]); contradiction|].
-  split; [intros (_ & _ & A & _); vm_compute in A; discriminate|].
-  split; [vm_compute; reflexivity|]. split; vm_compute; reflexivity.
-Qed.
-
-(* ---------- the property at full strength, and why it is only partially proved ---------- *)
-(* every history, every running replica with the link up: some bound after which, under every
-   fair schedule (at most F swallowed / side-lined deliveries), the replica agrees with the
-   primary *)
-Definition converges_statement : Prop :=
-  forall evs, let p := fst (run evs sys_init) in let r := snd (run evs sys_init) in
-  connected r ->
-  forall F, exists bound, forall cs, (bads cs <= F)%nat -> (bound <= length cs)%nat ->
-  views_agree p (ticks cs p r) = true.
-
-Theorem converges_statement_refuted : ~ converges_statement.
-Proof.
-  intros H. destruct last_write_refuted as (C & _ & _ & V).
-  destruct (H w_last_write C 0%nat) as (b & Hb).
-  assert (B0 : bads (repeat good b) = 0%nat).
-  { clear. induction b as [|b IH]; [reflexivity|]. exact IH. }
-  specialize (Hb (repeat good b)). rewrite B0, repeat_length in Hb.
-  specialize (Hb (le_n 0) (le_n b)).
-  rewrite V in Hb. discriminate.
-Qed.
+Example former_witnesses_converge :
+  settled w_rotation = true /\ settled w_join_after_rotation = true /\
+  settled w_last_write = true /\ settled w_tx_cut = true.
+Proof. repeat split; vm_compute; reflexivity. Qed.
